@@ -1,7 +1,7 @@
 (** C05 — packet protection round-trips, matches RFC 9001, rejects tampering.
     Only statements live here; each is closed by [exact] of a lemma proved elsewhere. *)
 From Coq Require Import List ZArith Sorted.
-From V Require Import Gen.Params PktProt.PktNum PktProt.PktNumProofs PktProt.KeyPhase PktProt.KeyPhaseProofs PktProt.KeyPhaseRun PktProt.KeyPhaseExamples.
+From V Require Import Gen.Params PktProt.PktNum PktProt.PktNumProofs PktProt.KeyPhase PktProt.KeyPhaseProofs PktProt.KeyPhaseRun PktProt.KeyPhaseExamples PktProt.Protect PktProt.ProtectProofs PktProt.ProtectExamples.
 Import ListNotations.
 Open Scope Z_scope.
 
@@ -64,3 +64,67 @@ Example C05_update_not_early_nonvacuous :
   = [0; 0; 1; 1; 1; 1; 1; 1; 2; 2; 2; 3].
 Proof. exact update_example_ok. Qed.
 Print Assumptions C05_update_not_early_nonvacuous.
+
+(** (a) Protect / unprotect round trip, byte level (encryptPacket vs. packetUnpacker), for
+    every AEAD that opens what it sealed and adds a 16-byte tag and every header-protection
+    mask function: for both header forms, every first byte with the right layout, every
+    connection ID / long-header middle part [mid], packet number length 1..4, packet number
+    below 2^62 inside the receiver's decode window, and every non-empty payload with
+    pnLen + |payload| >= 4 (what the packer pads to: the minimum that still yields a
+    header-protection sample), the receiver recovers exactly (first byte, packet number,
+    its length, key phase bit, payload). *)
+Theorem C05_protect_roundtrip :
+  forall (aead_seal : Z -> Z -> list Z -> list Z -> list Z)
+         (aead_open : Z -> Z -> list Z -> list Z -> option (list Z))
+         (hp_mask : list Z -> list Z),
+    (forall pn kp ad p, aead_open pn kp ad (aead_seal pn kp ad p) = Some p) ->
+    (forall pn kp ad p, length (aead_seal pn kp ad p) = (length p + 16)%nat) ->
+    forall long first mid pn kp pnLen payload largest,
+      (1 <= pnLen <= 4)%nat -> wf_first long first pnLen kp ->
+      0 <= pn < 2 ^ 62 -> -1 <= largest ->
+      largest + 1 - 2 ^ (Z.of_nat pnLen * 8) / 2 < pn <= largest + 1 + 2 ^ (Z.of_nat pnLen * 8) / 2 ->
+      payload <> [] -> (4 <= pnLen + length payload)%nat ->
+      unprotect aead_open hp_mask long (1 + length mid) largest
+        (protect aead_seal hp_mask long (mk_header first mid pnLen pn) payload pn kp pnLen)
+      = UOk first pn (Z.of_nat pnLen) kp payload.
+Proof. exact protect_roundtrip. Qed.
+Print Assumptions C05_protect_roundtrip.
+
+(** The first bytes written by wire.AppendShortHeader / ExtendedHeader.Append satisfy [wf_first]. *)
+Theorem C05_first_byte_layout :
+  (forall pnLen kp, (1 <= pnLen <= 4)%nat -> kp = 0 \/ kp = 1 -> wf_first false (short_first pnLen kp) pnLen kp) /\
+  (forall ptype pnLen, (1 <= pnLen <= 4)%nat -> 0 <= ptype <= 3 -> wf_first true (long_first ptype pnLen) pnLen 0).
+Proof. exact (conj short_first_wf long_first_wf). Qed.
+Print Assumptions C05_first_byte_layout.
+
+(** (d) Any modification is rejected rather than yielding different plaintext: under ideal
+    integrity of the AEAD (whatever opens was sealed by the honest sender — predicate
+    [sealed] — and is exactly that ciphertext), EVERY byte string the unpacker accepts is
+    bit for bit the protected form of the header, packet number, key phase and payload it
+    is accepted as, and that content was sealed by the sender.  Hence a byte string that
+    differs from every genuinely protected packet fails to open. *)
+Theorem C05_tamper_rejected :
+  forall (aead_seal : Z -> Z -> list Z -> list Z -> list Z)
+         (aead_open : Z -> Z -> list Z -> list Z -> option (list Z))
+         (hp_mask : list Z -> list Z)
+         (sealed : Z -> Z -> list Z -> list Z -> Prop),
+    (forall pn kp ad c p, aead_open pn kp ad c = Some p -> sealed pn kp ad p /\ c = aead_seal pn kp ad p) ->
+    forall long hdrLen largest data first pn pnLen kp p,
+      (1 <= hdrLen)%nat ->
+      unprotect aead_open hp_mask long hdrLen largest data = UOk first pn pnLen kp p ->
+      exists hdr, sealed pn kp hdr p /\ length hdr = (hdrLen + Z.to_nat pnLen)%nat /\ nth 0 hdr 0 = first /\
+                  data = protect aead_seal hp_mask long hdr p pn kp (Z.to_nat pnLen).
+Proof. exact tamper_rejected. Qed.
+Print Assumptions C05_tamper_rejected.
+
+(** Non-vacuity: the hypotheses of both theorems are satisfiable together, and a concrete
+    short-header packet (key phase 1, 2-byte packet number 65537 against largest 65530)
+    round-trips while differing from its unprotected form. *)
+Example C05_protect_nonvacuous :
+  (forall pn kp ad p, toy_open pn kp ad (toy_seal pn kp ad p) = Some p) /\
+  (forall pn kp ad p, length (toy_seal pn kp ad p) = (length p + 16)%nat) /\
+  (forall pn kp ad c p, toy_open pn kp ad c = Some p -> True /\ c = toy_seal pn kp ad p) /\
+  unprotect toy_open toy_mask false 4 65530 ex_packet = UOk (short_first 2 1) 65537 2 1 [9; 8; 7] /\
+  ex_packet <> mk_header (short_first 2 1) [1; 2; 3] 2 65537 ++ toy_seal 65537 1 [] [9; 8; 7].
+Proof. exact (conj toy_open_seal (conj toy_seal_length (conj toy_integrity protect_example))). Qed.
+Print Assumptions C05_protect_nonvacuous.
